@@ -1006,6 +1006,8 @@ int ys_scan(ys_rules* r, ys_scanner* s, const uint8_t* data, size_t len,
           break;
         if (notready > 200)
           break;
+        if (o->resume_sleep_us > 0)
+          usleep(o->resume_sleep_us);
       }
     }
     free(exact);
